@@ -187,6 +187,14 @@ class Impl:
         self.etrig, self.mtrig, self.ME, self.obs = etrig, mtrig, MergeEngine, obs_mod
         self.contents, self.fs, self.livefs = contents, fs, livefs
         self.base = tempfile.mkdtemp(prefix="verif_c21_")
+        # snakeoil (a dependency, not the tree under test) hashes every compared file with ~10 algorithms,
+        # one thread each; md5 (what the vdb records) + sha1 + size keep simple_chksum_compare's three
+        # branches alive at a fraction of the cost on a loaded machine
+        from snakeoil import chksum
+        chksum.get_handlers()
+        for k in list(chksum.chksum_types):
+            if k not in ("md5", "sha1", "size"):
+                del chksum.chksum_types[k]
         # warm every lazy import before any chroot
         for mode in ("install", "replace", "uninstall"):
             d = os.path.join(self.base, "warm_" + mode)
@@ -307,8 +315,10 @@ class Impl:
                     out[p] = ["s", os.readlink(p)]
         return out
 
-    def run_many(self, cases, workers=10):
-        """run the scenarios in `workers` forked worker processes (each scenario in its own chroot child)"""
+    def run_many(self, cases, workers=8):
+        """run the scenarios in `workers` forked worker processes; a worker chroot()s into a fresh
+        directory for every scenario and returns through a descriptor of the real root (fork is
+        the expensive part on a loaded machine, so it is done once per worker, not per scenario)"""
         workers = max(1, min(workers, len(cases)))
         outs = []
         for w in range(workers):
@@ -316,7 +326,7 @@ class Impl:
             pid = os.fork()
             if pid == 0:
                 try:
-                    res = [self.run(c) for c in cases[w::workers]]
+                    res = self._worker(cases[w::workers])
                     with open(path, "w") as f:
                         json.dump(res, f)
                 finally:
@@ -328,6 +338,7 @@ class Impl:
             try:
                 with open(path) as f:
                     res = json.load(f)
+                os.unlink(path)
             except (OSError, ValueError):
                 res = []
             idxs = list(range(w, len(cases), workers))
@@ -335,36 +346,28 @@ class Impl:
                 results[i] = r
         return [r if r is not None else {"err": "driver:worker-died"} for r in results]
 
-    def run(self, case):
-        d = tempfile.mkdtemp(prefix="c_", dir=self.base)
-        r, w = os.pipe()
-        pid = os.fork()
-        if pid == 0:
+    def _worker(self, cases):
+        rootfd = os.open("/", os.O_RDONLY)
+        out = []
+        for case in cases:
+            d = tempfile.mkdtemp(prefix="c_", dir=self.base)
             try:
-                os.close(r)
                 os.chroot(d)
                 os.chdir("/")
-                res = self._run(case)
-                res["tree"] = self.snapshot()
-                os.write(w, json.dumps(res).encode())
-            except BaseException as ex:  # noqa: BLE001
-                os.write(w, json.dumps({"err": "driver:" + repr(ex), "tb": traceback.format_exc()[-1500:]}).encode())
+                try:
+                    res = self._run(case)
+                    res["tree"] = self.snapshot()
+                except BaseException as ex:  # noqa: BLE001
+                    res = {"err": "driver:" + repr(ex), "tb": traceback.format_exc()[-1500:]}
             finally:
-                os._exit(0)
-        os.close(w)
-        buf = b""
-        while True:
-            c = os.read(r, 1 << 16)
-            if not c:
-                break
-            buf += c
-        os.close(r)
-        os.waitpid(pid, 0)
-        shutil.rmtree(d, ignore_errors=True)
-        try:
-            return json.loads(buf)
-        except ValueError:
-            return {"err": "driver:no-result", "tb": buf.decode("latin1")[-500:]}
+                os.fchdir(rootfd)
+                os.chroot(".")
+            shutil.rmtree(d, ignore_errors=True)
+            out.append(res)
+        return out
+
+    def run(self, case):
+        return self.run_many([case], 1)[0]
 
 
 # --------------------------------------------------------------------------- rendering
@@ -586,6 +589,8 @@ def main(chk: Check):
     chk.lint(["C21"])
     chk.check_fingerprint(ANCHORS)
 
+    import time
+    tm = {"build+lint": round(time.time() - chk.t0, 1)}
     impl = Impl()
     try:
         # MergeEngine.uninstall only handles an offset with fixes/C20-1 (C20's repair); probe it
@@ -597,10 +602,12 @@ def main(chk: Check):
                      "in this tree): uninstall mode is exercised with offset / only; replace mode covers the offsets")
         cases = load_corpus()
         n_corpus = len(cases)
-        for _ in range(chk.n(240, 4000)):
+        for _ in range(chk.n(240, 2000)):
             cases.append(gen_case(chk.rng, un_off))
         rows, prop_bad, hist = [], [], {}
+        t1 = time.time()
         results = impl.run_many(cases)
+        tm["implementation"] = round(time.time() - t1, 1)
         for idx, (case, res) in enumerate(zip(cases, results)):
             if str(res.get("err", "")).startswith("driver:"):
                 chk.violation("correspondence", {"what": "the driver could not run a scenario", "input": case, "result": res}, True)
@@ -625,10 +632,13 @@ def main(chk: Check):
         chk.count("merge", len(rows))
         chk.cov["distribution"] = {f"{m} {o}": n for (m, o), n in sorted(hist.items())}
         mism = []
+        t1 = time.time()
         if ok and rows:
-            r = chk.coq_eval("merge", IMPORTS, "bstr", [(a, b) for a, b, _, _ in rows], ["mismatches run_merge cases"], shard=120)
+            r = chk.coq_eval("merge", IMPORTS, "bstr", [(a, b) for a, b, _, _ in rows], ["mismatches run_merge cases"], shard=130)
             if r is not None:
                 mism = r[0]
+        tm["coq"] = round(time.time() - t1, 1)
+        chk.cov["timing_s"] = tm
         for case, b, res in prop_bad[:4]:
             chk.violation("property", {"what": b["what"], "input": case, "detail": b,
                                        "recorded": res.get("recorded"), "warns": res.get("warns")})
